@@ -12,6 +12,9 @@ You can obtain one at http://mozilla.org/MPL/2.0/.
 
 #include "libfive/tree/tree.hpp"
 #include "libfive/tree/key.hpp"
+#ifdef LIBFIVE_VERIF
+#include "libfive/verif.hpp"
+#endif
 
 namespace libfive {
 
@@ -77,7 +80,21 @@ struct TreeData : public TreeDataVariant
     TreeData(TreeDataVariant&& v)
         : TreeDataVariant(std::move(v))
         , flags(compute_flags())
-    { /* Nothing to do here */ }
+    { /* Nothing to do here */
+#ifdef LIBFIVE_VERIF
+        verif::live_nodes.fetch_add(1, std::memory_order_relaxed);
+        verif::point(verif::SITE_TREE_STEP, 3, 0, this);
+#endif
+    }
+#ifdef LIBFIVE_VERIF
+    /*  Verification hook: live-node counter and a delete event carrying the
+     *  refcount observed at destruction (kind 4) */
+    ~TreeData() {
+        verif::point(verif::SITE_TREE_STEP, 4,
+                     refcount.load(std::memory_order_relaxed), this);
+        verif::live_nodes.fetch_sub(1, std::memory_order_relaxed);
+    }
+#endif
 
     /*  Returns the opcode of this clause */
     Opcode::Opcode op() const;
